@@ -598,3 +598,17 @@ func silenceLog() func() {
 	log.SetOutput(io.Discard)
 	return func() { log.SetOutput(old) }
 }
+
+// AnyAccepted reports whether Accept has handed out at least one connection.
+func (l *Listener) AnyAccepted() bool {
+	if l.sim.Free { // in baton mode conditions are evaluated by the scheduler, which holds the simulator lock
+		l.lk.Lock()
+		defer l.lk.Unlock()
+	}
+	for _, c := range l.Conns {
+		if c.acceptedByServer {
+			return true
+		}
+	}
+	return false
+}
